@@ -262,13 +262,40 @@ func (ns *normState) unknownCallees() map[types.Object]*inlCallee {
 					owner = strings.TrimPrefix(ns.srcText(fd.Recv.List[0].Type.Pos(), fd.Recv.List[0].Type.End()), "*") + "." + owner
 				}
 				ast.Inspect(fd.Body, func(n ast.Node) bool {
-					as, ok := n.(*ast.AssignStmt)
-					if !ok || as.Tok != token.DEFINE || len(as.Lhs) != 1 || len(as.Rhs) != 1 {
+					var as ast.Node
+					var lit *ast.FuncLit
+					var id *ast.Ident
+					var defEnd token.Pos
+					switch x := n.(type) {
+					case *ast.AssignStmt:
+						if x.Tok != token.DEFINE || len(x.Lhs) != 1 || len(x.Rhs) != 1 {
+							return true
+						}
+						l, ok := x.Rhs[0].(*ast.FuncLit)
+						i, ok2 := x.Lhs[0].(*ast.Ident)
+						if !ok || !ok2 {
+							return true
+						}
+						as, lit, id, defEnd = x, l, i, x.End()
+					case *ast.DeclStmt:
+						// var conv func(T) U = func(v T) U { … } (the shape an inlined function-valued parameter takes)
+						gd, ok := x.Decl.(*ast.GenDecl)
+						if !ok || gd.Tok != token.VAR || len(gd.Specs) != 1 {
+							return true
+						}
+						vs, ok := gd.Specs[0].(*ast.ValueSpec)
+						if !ok || len(vs.Names) != 1 || len(vs.Values) != 1 {
+							return true
+						}
+						l, ok := vs.Values[0].(*ast.FuncLit)
+						if !ok {
+							return true
+						}
+						as, lit, id, defEnd = x, l, vs.Names[0], x.End()
+					default:
 						return true
 					}
-					lit, ok := as.Rhs[0].(*ast.FuncLit)
-					id, ok2 := as.Lhs[0].(*ast.Ident)
-					if !ok || !ok2 || id.Name == "_" {
+					if id.Name == "_" {
 						return true
 					}
 					if canonCl[short+"|"+owner+"|"+id.Name] {
@@ -285,7 +312,7 @@ func (ns *normState) unknownCallees() map[types.Object]*inlCallee {
 						switch x := m.(type) {
 						case *ast.AssignStmt:
 							for _, l := range x.Lhs {
-								if li, isId := l.(*ast.Ident); isId && x != as && pk.TypesInfo.Uses[li] == types.Object(v) {
+								if li, isId := l.(*ast.Ident); isId && ast.Node(x) != as && pk.TypesInfo.Uses[li] == types.Object(v) {
 									reassigned = true
 								}
 							}
@@ -299,7 +326,7 @@ func (ns *normState) unknownCallees() map[types.Object]*inlCallee {
 					if reassigned {
 						return true
 					}
-					c := &inlCallee{obj: v, sig: sig, decl: &ast.FuncDecl{Name: id, Type: lit.Type, Body: lit.Body}, pk: pk, file: file, defEnd: as.End()}
+					c := &inlCallee{obj: v, sig: sig, decl: &ast.FuncDecl{Name: id, Type: lit.Type, Body: lit.Body}, pk: pk, file: file, defEnd: defEnd}
 					if !ns.bodyInlinable(c) {
 						return true
 					}
@@ -598,9 +625,16 @@ func (ns *normState) buildInline(s *inlSite, mode string) (pre string, block str
 		for i := 0; i < tps.Len(); i++ {
 			foreign := false
 			txt := types.TypeString(inst.TypeArgs.At(i), func(p *types.Package) string {
-				if p != s.pk.Types {
-					foreign = true
+				if p == s.pk.Types {
+					return ""
 				}
+				// a type of another package: the site's file must import it under its own name
+				for _, im := range s.file.Imports {
+					if strings.Trim(im.Path.Value, "\"") == p.Path() && (im.Name == nil || im.Name.Name == p.Name()) {
+						return p.Name()
+					}
+				}
+				foreign = true
 				return ""
 			})
 			if foreign || strings.Contains(txt, "interface{") || strings.Contains(txt, "struct{") {
@@ -1189,7 +1223,8 @@ func (ns *normState) inlineInBlock(pk *packages.Package, file *ast.File, body *a
 						for _, l := range x.Lhs {
 							// index operands of the left side are evaluated before the call: they must be
 							// plain (identifiers / literals), which the callee cannot change
-							if x.Tok == token.ASSIGN && !simpleOperand(l) && !plainIndexed(l) {
+							// (a callee that merely computes cannot change them either: the order does not matter)
+							if x.Tok == token.ASSIGN && !simpleOperand(l) && !plainIndexed(l) && !c.pure {
 								return
 							}
 						}
@@ -1645,7 +1680,19 @@ func (ns *normState) tryAssignCheck(pk *packages.Package, file *ast.File, st, ne
 			return false
 		}
 		if as.Tok == token.DEFINE && pk.TypesInfo.Defs[id] != nil {
-			fmt.Fprintf(&b, "var %s %s\n_ = %s\n", id.Name, resTypes[i], id.Name)
+			tt := resTypes[i]
+			if sig.TypeParams() != nil && sig.TypeParams().Len() > 0 {
+				// a generic callee: the variable's type at this site (the instance's result type)
+				if t := pk.TypesInfo.TypeOf(id); t != nil {
+					tt = types.TypeString(t, func(p *types.Package) string {
+						if p == pk.Types {
+							return ""
+						}
+						return p.Name()
+					})
+				}
+			}
+			fmt.Fprintf(&b, "var %s %s\n_ = %s\n", id.Name, tt, id.Name)
 		}
 	}
 	b.WriteString(blk + "\n")
